@@ -53,7 +53,25 @@ RANDOM_OPTS = {
 FLUSH_OPTS = dict(RANDOM_OPTS, script_ops=['ret', 'fire', 'fire', 'flush', 'stop'], p_multichannel=0.0)
 
 
+def nested_flush_cases():
+    """a handler fires an event (priority below / equal / above the pending ones) and then calls flush()
+    itself while events queued before the pass are still pending"""
+    for p, pend, where in [(p, pend, w) for p in (-1, 0, 1, 2) for pend in (0, 1) for w in ('first', 'second')]:
+        prog = {'comps': {'1': {'chan': 'a'}},
+                'handlers': {
+                    '1': _h(1, ['x0'], 0, {'x0': [['fire', {'name': 'x1', 'prio': p}], ['flush'], ['ret', 1]]}),
+                    '2': _h(1, ['x1'], 0, {'x1': [['ret', 2]]}),
+                    '3': _h(1, ['x2'], 0, {'x2': [['fire', {'name': 'x3', 'prio': 0}]]}),
+                    '4': _h(1, ['x3'], 0, {'x3': [['ret', 4]]})},
+                'dyn': []}
+        fires = [['fire', 1, {'name': 'x2', 'prio': pend, 'ch': None}], ['fire', 1, {'name': 'x2', 'prio': 0, 'ch': None}]]
+        x0 = ['fire', 1, {'name': 'x0', 'prio': 0, 'ch': None}]
+        hist = ([x0] + fires) if where == 'first' else ([fires[0], x0, fires[1]])
+        yield prog, hist + [['flush', 1]]
+
+
 def gen_random(rnd, quick):
+    yield from nested_flush_cases()
     for i in range(300 if quick else 6000):
         opts = FLUSH_OPTS if i % 3 == 2 else RANDOM_OPTS
         prog = kernelgen.gen_program(rnd, opts)
@@ -76,6 +94,8 @@ def mutate(rnd, prog, lines):
                 not any(ln['k'] == 'api' for ln in lines[a:b]) and lines[fire_at[ea]]['p'] == lines[fire_at[eb]]['p'] \
                 and lines[fire_at[ea]]['c'] == lines[fire_at[eb]]['c']:
             cands.append((ea, eb))
+    if any(ln['k'] == 'op' and ln['n'] == 'flush' for ln in lines):
+        cands = []      # a handler that flushes starts passes of its own: consecutive dispatches need not share a pass
     if cands and rnd.random() < 0.6:
         ea, eb = rnd.choice(cands)
         out[fire_at[ea]]['p'] += 1
